@@ -241,6 +241,17 @@ CHECKS += [
          technique="symbolic execution of optimizer steps on polynomial terms with sqrt atoms vs documented update formulas; z3 QF_NRA"),
 ]
 
+CHECKS += [
+    dict(property_id="C38", category="other", engine=E1,
+         text="10 layered circuits (single rotations, controlled rotations, Ising, fixed S/T/SX gates between layers, repeated entanglers) go through the REAL "
+              "qp.metric_tensor transform (approx None / block-diag / diag, allow_nonunitary False) and adjoint_metric_tensor; tapes are evaluated by the matrix-route "
+              "oracle, the REAL post-processing assembles the tensor, and z3 proves every claimed entry equal to Re(<d_i psi|d_j psi> - <d_i psi|psi><psi|d_j psi>) "
+              "from the symbolic differentiator (entries outside an approximation must be exactly 0), for ALL parameter values. Category 'other' because of the recorded "
+              "known finding F10 (controlled rotations).",
+         note=PROOF_NOTE + " Shim: object accumulators in gradients.adjoint_metric_tensor (several adjoint cases still unsupported and listed). Outside: QNode-level classical Jacobian contraction, quantum_fisher plumbing, shots, circuits that the transform must decompose first.",
+         technique="symbolic execution of metric-tensor tapes/post-processing on polynomial terms vs symbolic state derivatives; z3 QF_NRA"),
+]
+
 _NOT_BUILT = "claimed in DESIGN.md §4 but its solver-based check is not built yet in this tree"
 NOT_APPLICABLE_REASONS = {
     "C04": "equality/hash: Python hash() of concrete payloads and tolerance-based allclose relations; no exact relation a solver can decide",
